@@ -217,6 +217,11 @@ class SimpleAdapter(object):
             ri = [(p, q, rate, (lambda u, v, at, f=wf: f(u, v, at) / SCALE) if (arg == "e_kw") else wf)
                   for (p, q, rate, wf), (_, _, _, _, _m, arg) in zip(ri, case["induced"])]
         self.H, self.J = H, J
+        if case.get("prime", True):
+            # a multi-step history on the SAME graph object: one earlier call with other attribute
+            # values (all weights x7+1), then the real values are put back.  Every call must use the
+            # weights the graph has at the time of the call.
+            self._prime()
         self.ref = SimpleContagion(spec, rs, ri)
         self.init_state = tuple(dec_status(s) for s in case["IC"])
         self.ret = [dec_status(s) for s in case["ret"]]
@@ -225,6 +230,36 @@ class SimpleAdapter(object):
         finite = (tmax is None) or tmax < 1e8
         self.clock = 2.0 ** -20 if finite else 1.0
         self.trans_ok = True
+
+    def _prime(self):
+        G = self.G
+        saved_n = {u: dict(G.nodes[u]) for u in G.nodes()}
+        saved_e = {(u, v): dict(d) for u, v, d in G.edges(data=True)}
+        try:
+            for u in G.nodes():
+                for k in ("nw", "nw2"):
+                    if k in G.nodes[u]:
+                        G.nodes[u][k] = G.nodes[u][k] * 7 + 1
+            for u, v, d in G.edges(data=True):
+                for k in ("w", "w2"):
+                    if k in d:
+                        d[k] = d[k] * 7 + 1
+            c = self.case
+            kw = dict(tmin=c["tmin"], tmax=c["tmin"] + 1e-9, return_full_data=False)
+            if self.spont_kwargs:
+                kw["spont_kwargs"] = self.spont_kwargs
+            if self.nbr_kwargs:
+                kw["nbr_kwargs"] = self.nbr_kwargs
+            self.init_state = tuple(dec_status(x) for x in c["IC"])
+            run_under(SimRandom("seeded", seed=1), EoN.Gillespie_simple_contagion, G, self.H, self.J, self._ic(),
+                      [dec_status(x) for x in c["ret"]], **kw)
+        finally:
+            for u, d in saved_n.items():
+                G.nodes[u].clear()
+                G.nodes[u].update(d)
+            for (u, v), d in saved_e.items():
+                G.edges[u, v].clear()
+                G.edges[u, v].update(d)
 
     def _ic(self):
         d = {lab: s for lab, s in zip(self.labels, self.init_state)}
